@@ -228,6 +228,10 @@ def monitor(case, r, interrupted=False):
     if failed:
         if not isinstance(exc, eng.NodeError):
             v.append(("C06", f"calls failed but run raised {exc!r} instead of NodeError"))
+            if exc is None and set(begun) != set(range(len(tr.nodes))):
+                missing = sorted(set(range(len(tr.nodes))) - set(begun))
+                v.append(("C04", f"run returned normally (as a success) without executing nodes {[rev[i] for i in missing]} "
+                          f"(nodes {[rev[i] for i in sorted(failed)]} had raised)"))
         else:
             n = exc.node
             if n not in ids or ids[n] not in failed:
